@@ -412,7 +412,7 @@ struct UnitCell : UnitCellParameters {
     Box<Position> r;
     r.minimum = orthogonalize(f.minimum);
     r.maximum = orthogonalize(f.maximum);
-    if (alpha != 90. || beta == 90. || gamma == 90.) {
+    if (alpha != 90. || beta != 90. || gamma != 90.) {
       r.extend(orthogonalize({f.minimum.x, f.minimum.y, f.maximum.z}));
       r.extend(orthogonalize({f.minimum.x, f.maximum.y, f.maximum.z}));
       r.extend(orthogonalize({f.minimum.x, f.maximum.y, f.minimum.z}));
